@@ -28,6 +28,10 @@ class _Replay(dict):
             return self[key]
         if key.startswith(("LocalFileStore.store_blob#", "LocalFileStore.fetch_blob#", "LocalFileStore.has_blob#")):
             return "h_store.store_ops"
+        if key.startswith("LocalFileStore.fetch_paths#"):
+            return "h_store.reads_leave_no_trace"
+        if key.startswith(("MemoryStore.has_blob#", "MemoryStore.fetch_blob#", "MemoryStore.store_blob#")):
+            return "h_store.memory_ops"
         return default
 
 
@@ -48,4 +52,4 @@ def lemmas():
 def bounded(tier, seed, pr):
     from pyvc.boundedrun import run_bounded
 
-    return [run_bounded(pr, "b_store.py", "store_sequences_vs_dict_model")]
+    return [run_bounded(pr, "b_store.py", "store_sequences_vs_dict_model"), run_bounded(pr, "b_reads.py", "reads_leave_no_trace")]
